@@ -411,6 +411,10 @@ pub fn c09(tier: &str, seed: u64) -> i32 {
         ];
         crate::props_c08::seeded_group(&mut ctx, "C09", crate::engine_a::O_API | crate::engine_a::O_DEC | crate::engine_a::O_DEC_CONTENTS, clauses, 2, vec![3, 200], &specs, 30_000, 6.0);
         if ctx.run.violations.is_empty() {
+            // a freed key slot of every class with a live record behind it, then a key of the next class
+            crate::props_a::class_ladder_keys(&mut ctx, "C09", crate::engine_a::O_API | crate::engine_a::O_DEC | crate::engine_a::O_DEC_CONTENTS, clauses, false, 1);
+        }
+        if ctx.run.violations.is_empty() {
             // chains of three such keys (capped): a record that moves into a freed slot below its old place
             crate::props_a::three_key_seeds(&mut ctx, "C09", crate::engine_a::O_API | crate::engine_a::O_DEC | crate::engine_a::O_DEC_CONTENTS, clauses, 3.0);
         }
